@@ -302,6 +302,24 @@ func BadWritesGlobal(b *Box) int {
 	return counter
 }
 
+var nullText = []byte("null")
+
+// GoodFreshNull hands out a copy of the package's constant text.
+func GoodFreshNull(b *Box) []byte {
+	if b == nil {
+		return append([]byte(nil), nullText...)
+	}
+	return []byte("box")
+}
+
+// BadSharedNull hands out the package's own slice.
+func BadSharedNull(b *Box) []byte {
+	if b == nil {
+		return nullText
+	}
+	return []byte("box")
+}
+
 // ---- PANICREACH
 
 // GoodTotal never panics explicitly.
